@@ -8,7 +8,8 @@ conditions is NOT written here: it is imported from `Generated/ValidationTables.
 translator regenerates from the working tree on every run.
 
 Source mirrored:
-  fairlearn/utils/_input_validation.py:81-123      `validate`
+  fairlearn/utils/_input_validation.py:81-123      `validate`, `validateWith` (hand-written) and `validateSrc` (the lifted
+                                                    check list of Generated/ValidateSrc.lean, run by `runChecks`)
   fairlearn/postprocessing/_threshold_optimizer.py:280-339 + _tradeoff_curve_utilities.py:305-308,390-407   `toFit`
   fairlearn/metrics/_metric_frame.py:239-275, 954-960, 969-1021     `frame`
   utility_parity.py:101-114, error_rate.py:49-62, grid_search.py:92-100   `parity`, `costs`, `gridSearch` (generated)
@@ -17,6 +18,7 @@ Source mirrored:
 -/
 import FairModel.Model.Proto
 import FairModel.Generated.ValidationTables
+import FairModel.Generated.ValidateSrc
 
 namespace Validation
 open Generated.ValidationTables
@@ -66,6 +68,7 @@ def validateWith (expectY expectSf enforceBinary : Bool) (d : MitData) : Outcome
     | none => true
     | some y => y.isEmpty || (enforceBinary && !isBinary y))
   if yBad then .valueError
+  else if d.n == 0 then .valueError                        -- check_array(X, ..): at least one row
   else if (match d.y with | some y => y.length != d.n | none => false) then .valueError
   else
     let cfOut : Outcome := match d.cf with
@@ -75,9 +78,72 @@ def validateWith (expectY expectSf enforceBinary : Bool) (d : MitData) : Outcome
     | none => if expectSf then .valueError else cfOut
     | some sf => if sf.length != d.n then .valueError else cfOut
 
+/-! ### the body of `_validate_and_reformat_input` AS LIFTED (Generated/ValidateSrc.lean): an ordered list of checks,
+each with the condition under which it raises and the kind of exception; the call returns the kind of the first check
+that fires.  `validate` / `validateWith` above are the hand-written reading of the same function; the bridge theorem
+`Validation.validateSrc_eq_validateWith` (Lemmas/Validation.lean) proves the two equal for the list as it is in the
+working tree.  The entry points below (`mitFit`, `toFit`, `toPredict`) compute WITH the lifted list. -/
+
+section Lifted
+open Generated.ValidateSrc
+
+/-- membership of every label in the lifted label set (`set(np.unique(y)).issubset(set([0, 1]))`) -/
+def labelsIn (s : List Rat) (y : List Rat) : Bool := y.all (fun v => s.any (fun l => v == l))
+
+/-- what an atom of the lifted conditions means on a descriptor.  The descriptor's labels are a flat list of rationals and
+    its features group ids, so the shape test of y and the element checks of the `check_array` calls on y / sf / cf
+    (numeric dtype, finiteness) hold by construction; `check_array(X, ..)` (2-D, at least one row) holds iff `0 < n`. -/
+def evalAtom (expectY expectSf enforceBinary : Bool) (d : MitData) : Atom → Bool
+  | .expectY => expectY
+  | .expectSf => expectSf
+  | .enforceBinary => enforceBinary
+  | .yGiven => d.y.isSome
+  | .yNonempty => match d.y with | some y => !y.isEmpty | none => false
+  | .yShapeOk => true
+  | .yBinary => match d.y with | some y => labelsIn labelSet y | none => true
+  | .yArrayOk => true
+  | .yRowsMatch => match d.y with | some y => y.length == d.n | none => true
+  | .xArrayOk => d.n != 0
+  | .sfGiven => d.sf.isSome
+  | .sfRowsMatch => match d.sf with | some sf => sf.length == d.n | none => true
+  | .sfArrayOk => true
+  | .cfGiven => d.cf.isSome
+  | .cfRowsMatch => match d.cf with | some cf => cf.length == d.n | none => true
+  | .cfArrayOk => true
+
+def evalCond (f : Atom → Bool) : Cond → Bool
+  | .tt => true
+  | .atom a => f a
+  | .neg c => !evalCond f c
+  | .and a b => evalCond f a && evalCond f b
+  | .or a b => evalCond f a || evalCond f b
+
+/-- the first check (in source order) whose condition holds -/
+def firstFailure (f : Atom → Bool) : List Check → Option Exc
+  | [] => none
+  | c :: cs => if evalCond f c.cond then some c.exc else firstFailure f cs
+
+def excOutcome : Exc → Outcome
+  | .valueError => .valueError
+  | .typeError => .typeError
+  | .runtimeError => .runtimeError
+
+/-- run an ordered list of checks on a descriptor -/
+def runChecks (cs : List Check) (expectY expectSf enforceBinary : Bool) (d : MitData) : Outcome :=
+  match firstFailure (evalAtom expectY expectSf enforceBinary d) cs with
+  | none => .ok
+  | some e => excOutcome e
+
+/-- `_validate_and_reformat_input(X, y, expect_y=, expect_sensitive_features=, enforce_binary_labels=, **kwargs)` as lifted -/
+def validateSrc (expectY expectSf enforceBinary : Bool) (d : MitData) : Outcome :=
+  runChecks checks expectY expectSf enforceBinary d
+
+end Lifted
+
 /-- the classification moments' `load_data`, `ExponentiatedGradient.fit`, `GridSearch.fit` (all go through
-    `load_data` of the constraint and of the objective with `enforce_binary_labels=True`) -/
-def mitFit (d : MitData) : Outcome := validate true d
+    `load_data` of the constraint and of the objective with `enforce_binary_labels=True`; `expect_y`,
+    `expect_sensitive_features` at their defaults) -/
+def mitFit (d : MitData) : Outcome := validateSrc true true true d
 
 /-- labels of the rows of group `g` (pandas groupby on the sensitive feature) -/
 def groupLabels (sf : List Nat) (y : List Rat) (g : Nat) : List Rat :=
@@ -93,7 +159,7 @@ def anyDegenerate (sf : List Nat) (y : List Rat) : Bool :=
 /-- `ThresholdOptimizer.fit` -/
 def toFit (estimatorGiven : Bool) (constraints objective : String) (d : MitData) : Outcome :=
   if !toFitPrefix estimatorGiven constraints objective d.cf.isSome then .valueError
-  else match validate toEnforcesBinary { d with cf := none } with
+  else match validateSrc true true toEnforcesBinary { d with cf := none } with
     | .ok =>
       match d.sf, d.y with
       | some sf, some y => if anyDegenerate sf y then .valueError else .ok
@@ -157,7 +223,7 @@ def predictM (cls method : String) (fitted : Bool) : Outcome :=
     with the lifted expect_* / enforce flags -/
 def toPredict (fitted sfGiven : Bool) (nX nSf : Nat) : Outcome :=
   if !fitted then .notFitted
-  else validateWith toPredictExpectsY toPredictExpectsSf toPredictEnforcesBinary
+  else validateSrc toPredictExpectsY toPredictExpectsSf toPredictEnforcesBinary
     ⟨nX, some (List.replicate nX 0), if sfGiven then some (List.replicate nSf 0) else none, none⟩
 
 /-- `MetricFrame._get_annotated_metric_functions`: `sample_params` must be a dict; for a dict of metrics its keys must be
@@ -219,6 +285,7 @@ def parseBools := Proto.parseList Proto.parseBool
 
 /-- ops:
   `val.mit <n> <y|none> <sf|none> <cf|none>`
+  `val.src <expectY> <expectSf> <enforceBinary> <n> <y|none> <sf|none> <cf|none>`   (the lifted check list, any flags)
   `val.to <estimatorGiven> <constraints> <objective> <n> <y|none> <sf|none> <cf|none>`
   `val.frame <nTrue> <nPred> <paramLens> <sfNames> <sfIsStr> <sfLens> <cfNames> <cfIsStr> <cfLens>`
   `val.parity <dGiven> <rGiven> <ratio> <difference_bound> <ratio_bound_slack>`     `val.costs <given> <isDict> <keysOk> <fp> <fn>`
@@ -232,6 +299,10 @@ def handle (toks : List String) : Option String :=
     let d : MitData := ⟨← Proto.parseNat n, ← parseOpt Proto.parseRats y, ← parseOpt Proto.parseNats sf,
       ← parseOpt Proto.parseNats cf⟩
     pure (mitFit d).fmt
+  | ["val.src", ey, es, eb, n, y, sf, cf] => do
+    let d : MitData := ⟨← Proto.parseNat n, ← parseOpt Proto.parseRats y, ← parseOpt Proto.parseNats sf,
+      ← parseOpt Proto.parseNats cf⟩
+    pure (validateSrc (← Proto.parseBool ey) (← Proto.parseBool es) (← Proto.parseBool eb) d).fmt
   | ["val.to", est, c, o, n, y, sf, cf] => do
     let d : MitData := ⟨← Proto.parseNat n, ← parseOpt Proto.parseRats y, ← parseOpt Proto.parseNats sf,
       ← parseOpt Proto.parseNats cf⟩
